@@ -222,6 +222,15 @@ impl RtpHeader {
                 break;
             }
 
+            if offset + len > ext.data.len() {
+                // Malformed element in a received block: keep the header intact
+                // and report it instead of slicing past the end.
+                self.extension = Some(ext);
+                return Err(RtpError::InvalidHeader(
+                    "truncated element in header extension block",
+                ));
+            }
+
             if ext_id == id {
                 found = true;
                 new_data.push(id_header);
